@@ -282,43 +282,118 @@ def unwrap_trivial(node):
             return node
 
 
-def summarize_bool(node):
-    """Compact, line-free summary of a boolean-valued expression."""
+def canon_params(body):
+    """lid -> canonical name for the parameters of a body: `self` stays, the others become $1, $2, .. by position (source
+    names of locals are free: rules must not depend on them)."""
+    env = {}
+    i = 0
+    for p in body.get("params", []) or []:
+        pat = p.get("pat", p)
+        if pat.get("k") == "Bind":
+            if pat.get("name") == "self":
+                env[pat["lid"]] = "self"
+            else:
+                i += 1
+                env[pat["lid"]] = "$%d" % i
+        else:
+            i += 1
+    return env
+
+
+def canon_of(node, env):
+    """Canonical name of a place expression under env, or None: locals via env, `.as_ref()` / `&` / `*` transparent,
+    field reads as `<base>.<field>`."""
     n = unwrap_trivial(node)
     k = n.get("k")
+    if k == "Path" and n.get("rk") == "Local":
+        return env.get(n.get("lid"))
+    if k in ("AddrOf", "Unary") and (k == "AddrOf" or n.get("op") == "Deref"):
+        return canon_of(n["e"], env)
+    if k == "MethodCall" and n.get("name") in ("as_ref", "as_mut", "deref", "as_deref", "borrow") and not n.get("a"):
+        return canon_of(n["recv"], env)
+    if k == "Field":
+        b = canon_of(n["e"], env)
+        return "%s.%s" % (b, n["name"]) if b else None
+    return None
+
+
+def bind_pattern(pat, base, env):
+    """Extend env with the bindings of `pat` matched against the place called `base`."""
+    if not isinstance(pat, dict) or base is None:
+        return
+    pat = strip_ref(pat)
+    k = pat.get("k")
+    if k == "Bind":
+        env[pat["lid"]] = base
+        if "sub" in pat:
+            bind_pattern(pat["sub"], base, env)
+    elif k == "Struct":
+        for f in pat.get("fields", []):
+            bind_pattern(f["p"], "%s.%s" % (base, f["name"]), env)
+    elif k in ("TupleStruct", "Tuple"):
+        for i, q in enumerate(pat.get("pats", [])):
+            bind_pattern(q, "%s.%d" % (base, i), env)
+    elif k == "Or":
+        for q in pat.get("pats", []):
+            bind_pattern(q, base, env)
+
+
+def summarize_bool(node, env=None):
+    """Compact, line-free summary of a boolean-valued expression.  With env (lid -> canonical name, see canon_params /
+    bind_pattern) locals are printed by what they denote instead of by their source name."""
+    n = unwrap_trivial(node)
+    k = n.get("k")
+
+    def name_of(x):
+        x = unwrap_trivial(x)
+        if env is not None:
+            c = canon_of(x, env)
+            if c:
+                return c
+        return local_name_of(x)
     if k == "Lit":
         return str(n.get("v")).lower()
     if k == "MethodCall":
         recv = unwrap_trivial(n["recv"])
-        r = local_name_of(recv) or (recv.get("name") if recv.get("k") in ("MethodCall", "Field") else recv.get("k"))
-        args = ",".join(local_name_of(unwrap_trivial(a)) or unwrap_trivial(a).get("k", "?") for a in n.get("a", []))
+        r = name_of(recv) or (summarize_bool(recv, env) if env is not None and recv.get("k") in ("MethodCall", "Field") else None) \
+            or (recv.get("name") if recv.get("k") in ("MethodCall", "Field") else recv.get("k"))
+        args = ",".join(name_of(a) or unwrap_trivial(a).get("k", "?") for a in n.get("a", []))
         return "%s.%s(%s)" % (r, n["name"], args)
     if k == "Binary":
         op = {"Eq": "==", "Ne": "!=", "And": "&&", "Or": "||", "Lt": "<", "Le": "<=", "Gt": ">", "Ge": ">="}.get(n["op"], n["op"])
-        return "(%s %s %s)" % (summarize_bool(n["lhs"]), op, summarize_bool(n["rhs"]))
+        return "(%s %s %s)" % (summarize_bool(n["lhs"], env), op, summarize_bool(n["rhs"], env))
     if k == "Path":
+        if env is not None and n.get("rk") == "Local" and n.get("lid") in env:
+            return env[n["lid"]]
         return n.get("res", "?").split("::")[-1]
     if k == "Unary":
-        return "%s%s" % ("!" if n.get("op") == "Not" else n.get("op"), summarize_bool(n["e"]))
+        return "%s%s" % ("!" if n.get("op") == "Not" else n.get("op"), summarize_bool(n["e"], env))
     if k == "Call":
         return "%s(..)" % (last(callee(n)) or "call")
     if k == "Field":
-        return "%s.%s" % (summarize_bool(n["e"]), n["name"])
+        return "%s.%s" % (summarize_bool(n["e"], env), n["name"])
     if k == "Block":
         return "{..}"
     return k or "?"
 
 
-def nested_table(match, prefix=()):
-    """Rows of a (possibly nested) match: (tuple of pattern keys, guard summary or None, outcome summary)."""
+def nested_table(match, prefix=(), env=None):
+    """Rows of a (possibly nested) match: (tuple of pattern keys, guard summary or None, outcome summary).  With env (see
+    canon_params) the bindings of each arm are named after the place they are bound to (`self.element_type`, `$1.length`),
+    so that the table does not depend on the names chosen in the source."""
     rows = []
+    base = canon_of(match["scrut"], env) if env is not None else None
     for a in match["arms"]:
         body = unwrap_trivial(a["body"])
-        g = summarize_bool(a["guard"]) if "guard" in a else None
         for alt in pat_alts(a["pat"]):
+            e2 = env
+            if env is not None:
+                e2 = dict(env)
+                bind_pattern(alt, base, e2)
+            g = summarize_bool(a["guard"], e2) if "guard" in a else None
             key = prefix + (pat_key(alt),)
             if body.get("k") == "Match" and (body.get("msrc") == "Normal"):
-                rows.extend(nested_table(body, key + ((g,) if g else ())))
+                rows.extend(nested_table(body, key + ((g,) if g else ()), e2))
             else:
-                rows.append((key, g, summarize_bool(body)))
+                rows.append((key, g, summarize_bool(body, e2)))
     return rows
